@@ -74,7 +74,17 @@ def run(chk, replay=None):
             expect = jtree.dumps(jtree.mask(tin, zones.zone_pred(tin, cfg)))
             chk.nontriv((ci, expect))
             if mi != expect:
-                chk.violate('a position outside the zones was altered', {'cfg': cfg.describe(), 'input': l.decode('utf-8', 'replace'), 'output': io.decode('utf-8', 'replace')}, tags=['frame'])
+                case = {'cfg': cfg.describe(), 'input': l.decode('utf-8', 'replace'), 'output': io.decode('utf-8', 'replace')}
+                if not getattr(chk, '_shrunk_frame', False):
+                    chk._shrunk_frame = True
+                    from vlib import shrink
+                    def fails(b, cfg=cfg):
+                        t = jtree.parse(b)
+                        if t is None or jtree.kind(t) != 'obj' or jtree.has_dup_keys(t): return False
+                        return masked(shrink.impl_line(cfg, b), t, cfg) != jtree.dumps(jtree.mask(t, zones.zone_pred(t, cfg)))
+                    sb = shrink.shrink_line(l, fails)
+                    case['shrunk_input'] = sb.decode('utf-8', 'replace'); case['shrunk_output'] = str(shrink.impl_line(cfg, sb))[:600]
+                chk.violate('a position outside the zones was altered', case, tags=['frame'])
             tout = jtree.parse(io)
             # object keys are kept everywhere, also inside the zones (field-name redaction is off for this line)
             if tout is not None:
@@ -84,8 +94,20 @@ def run(chk, replay=None):
                     chk.disagree('object keys at every position', {'cfg': cfg.describe(), 'input': l.decode('utf-8', 'replace')}, str(sorted(ko.items()))[:300], str(sorted(key_skeleton(tm).items()))[:300])
                 bad = [(ip, ki[ip], ko.get(ip)) for ip in ki if ko.get(ip) != ki[ip]]
                 if bad:
-                    chk.violate('object keys changed although field-name redaction is off for this line', {'cfg': cfg.describe(), 'index_path': list(bad[0][0]), 'keys_in': list(bad[0][1]), 'keys_out': list(bad[0][2]) if bad[0][2] is not None else None,
-                                'input': l.decode('utf-8', 'replace'), 'output': io.decode('utf-8', 'replace')}, tags=['keys'])
+                    case = {'cfg': cfg.describe(), 'index_path': list(bad[0][0]), 'keys_in': list(bad[0][1]), 'keys_out': list(bad[0][2]) if bad[0][2] is not None else None,
+                            'input': l.decode('utf-8', 'replace'), 'output': io.decode('utf-8', 'replace')}
+                    if not getattr(chk, '_shrunk_keys', False):
+                        chk._shrunk_keys = True
+                        from vlib import shrink
+                        def fails(b, cfg=cfg):
+                            t = jtree.parse(b); o = shrink.impl_line(cfg, b)
+                            to = jtree.parse(o) if isinstance(o, bytes) else None
+                            if t is None or to is None or jtree.kind(t) != 'obj' or jtree.has_dup_keys(t): return False
+                            a, c2 = key_skeleton(t), key_skeleton(to)
+                            return any(c2.get(ip) != a[ip] for ip in a)
+                        sb = shrink.shrink_line(l, fails)
+                        case['shrunk_input'] = sb.decode('utf-8', 'replace'); case['shrunk_output'] = str(shrink.impl_line(cfg, sb))[:600]
+                    chk.violate('object keys changed although field-name redaction is off for this line', case, tags=['keys'])
             if tout is not None and zones.gate(tin):
                 for ip, kp, val in kept_leaves(tin):
                     if get_ip(tout, ip) != val:
